@@ -47,11 +47,19 @@ func ZZ_C05_load() {
 		legacy bool
 	}
 	nrec := 2
+	sh := zz.Shard(8) // first record: IPv4 choice x record format
 	var recs []rec
 	var prs []daemon.PodResources
 	for i := 0; i < nrec; i++ {
 		is := strconv.Itoa(i)
 		r := rec{pod: "ns/p" + is, eniID: zz.OneOf("rec"+is+".eni", "eni-1", "eni-2"), k4: zz.Fork("rec"+is+".v4", 4) - 1, k6: zz.Fork("rec"+is+".v6", 3) - 1, legacy: zz.Bool("rec" + is + ".legacy")}
+		if i == 0 {
+			zz.Assume(r.k4 == sh%4-1 && r.legacy == (sh/4 == 1))
+		}
+		if i == 1 && zz.Tier() > 0 {
+			// thorough: the second record is in the current format and belongs to this interface (any addresses)
+			zz.Assume(!r.legacy && r.eniID == "eni-1")
+		}
 		if i == 1 && zz.Tier() == 0 {
 			// quick: the second record is restricted (IPv4 .3 or none, no IPv6, current format)
 			zz.Assume((r.k4 == -1 || r.k4 == 1) && r.k6 == -1 && !r.legacy)
